@@ -3,6 +3,7 @@ import Goyang.Lemmas.TypesFuel
 import Goyang.Lemmas.TypesAdm
 import Goyang.Lemmas.TypesSpecErr
 import Goyang.Lemmas.TypesLinked
+import Goyang.Lemmas.TypesWfMain
 /-
 C09 — type names bind lexically and derived types inherit the whole chain.
 
@@ -36,19 +37,26 @@ What is proved (all for unbounded inputs):
   `spec_exec_members`, `spec_exec_accepts`, `spec_exec_error`;
 * `unambiguous_false`: the hypothesis `Spec.Types.Unambiguous` of the older `cyclic_is_error` holds of
   no registry (that theorem is vacuous, kept for the record, superseded by `cyclic_is_error_below`).
-`env_of_linked`: `Env.of reg` satisfies `Linked` whenever `linkOk reg` (through C11's `linkAll_spec`);
-`resolve_complete_loaded`: completeness in terms of `resolveType reg`.
-Not proved: a decidable sufficient condition on the registry for `UnambiguousBelow` /
-`KeysIdentify` (on concrete schemas they are discharged through the executable binding, see `Ex`);
-the side conditions `typeOk` are stated with the sub-models' functions (`Range.applyRange`,
-`Number.asRangeInt`, `enumFold`, `Identity.findIdentityBase`), whose own specifications are the
-subject of C10 / C15 / C14 / C11; when `chainOf` answers `noClaim` nothing is claimed.
+* discharging the hypotheses: `env_of_linked` (`Env.of reg` satisfies `Linked` whenever `linkOk reg`,
+  through C11's `linkAll_spec`), `standing_of_wellformed` (`SeqId`, `ImportsDistinct`,
+  `UnambiguousBelow`, `KeysIdentify` follow from the DECIDABLE well-formedness `WfReg` of the loaded
+  set — distinct sequence numbers / import prefixes / statement positions, no typedef name declared
+  twice in a statement or at the top level of a module and its submodules — for every reference
+  that stands in it, `InPlace`); `resolve_complete_loaded`, `resolve_errors_iff_loaded`: completeness
+  and the iff in terms of `resolveType reg` (what the driver computes) under `linkOk`, `WfReg`,
+  `InPlace`, `PartOfSchema`.
+Not proved / outside: the side conditions `typeOk` are stated with the sub-models' functions
+(`Range.applyRange`, `Number.asRangeInt`, `enumFold`, `Identity.findIdentityBase`), whose own
+specifications are the subject of C10 / C15 / C14 / C11; when `chainOf` answers `noClaim` nothing is
+claimed, and that its budget `specFuel` suffices is not proved; a reference in a submodule nobody
+includes is outside the claim (`PartOfSchema`), as in the executable specification.
 Helper lemmas: Goyang/Lemmas/Types*.lean.
 -/
 namespace Goyang.Props.C09
 open Goyang.Model Goyang.Model.Types Goyang.Spec.Types Goyang.Lemmas.Types
 open Goyang.Lemmas.TypesDefs Goyang.Lemmas.TypesComplete Goyang.Lemmas.TypesRestr Goyang.Lemmas.TypesAdm
 open Goyang.Lemmas.TypesSpecBind Goyang.Lemmas.TypesSpecChain Goyang.Lemmas.TypesSpecErr
+open Goyang.Lemmas.TypesWf Goyang.Lemmas.TypesWfMain
 
 /-- **Lexical binding.**  Whatever typedef the resolver picks for a type statement `t` is the one the
 name denotes: for an unprefixed or own-prefixed name the typedef of the nearest enclosing scope
@@ -686,6 +694,33 @@ theorem resolve_complete_loaded (reg : Registry) (hok : linkOk reg = true) (hid 
   simp only
   rw [hy]
 
+/-- **The standing hypotheses follow from decidable well-formedness.**  In a loaded set that is
+well-formed (`WfReg`, decidable: sequence numbers and, per module, import prefixes pairwise
+different; the statements of a module at pairwise different positions; no typedef name declared
+twice in one statement, nor twice at the top level of a module and its submodules) and linked,
+every reference that stands in the loaded set (`InPlace`: its module is loaded, the type statement
+with its enclosing statements is a path of that module's statement tree) satisfies `Standing`: in
+particular no name met below it denotes two typedefs and positions identify the type statements. -/
+theorem standing_of_wellformed (env : Env) (hwf : WfReg env.reg) (hlink : Linked env) (root : Mod) (scope : List Stmt)
+    (t : Stmt) (hin : InPlace env.reg (root, scope, t)) : Standing env (root, scope, t) :=
+  standing_of_wf env hwf hlink (root, scope, t) hin
+
+/-- **The model reports an error iff the specification rejects — for a loaded set**, in terms of
+`resolveType reg` (what the driver computes), with decidable hypotheses on the loaded set: `Process`
+linked everything (`linkOk`), the set is well-formed (`WfReg`), the reference stands in it
+(`InPlace`) in a part of a schema. -/
+theorem resolve_errors_iff_loaded (reg : Registry) (hok : linkOk reg = true) (hwf : WfReg reg)
+    (root : Mod) (scope : List Stmt) (t : Stmt) (hin : InPlace reg (root, scope, t)) (hsch : PartOfSchema reg root)
+    (hkw : t.kw = "type") :
+    (resolveType reg root scope t).2 ≠ [] ↔ ¬ ∃ a, Admissible (Env.of reg) root scope t a := by
+  have hS := standing_of_wellformed (Env.of reg) hwf (env_of_linked reg hok) root scope t hin
+  obtain ⟨hroot, ht, hscope⟩ := inSet_of_inPlace (env := Env.of reg) hin
+  have := resolve_errors_iff (Env.of reg) root scope t hS hroot hsch ht hkw hscope (Env.of reg).fuel
+    (by show (allTypeKeys reg).length + 1 ≤ (allTypeKeys reg).length + 2; omega)
+  unfold resolveType resolveTypeE
+  simp only
+  exact this
+
 /-! ## Non-vacuity: concrete schemas on which the hypotheses of the theorems hold
 
 The environments are written out (registry, include links) instead of being computed by `Env.of`,
@@ -874,6 +909,11 @@ example (fuel : Nat) (hfuel : (allTypeKeys env.reg).length + 1 ≤ fuel) :
 example (fuel : Nat) (hfuel : (allTypeKeys env.reg).length + 1 ≤ fuel) :
     ∀ e ∈ (resolveTypeF env fuel mM [leaf, lst, con, m] ty []).errs, ¬ BindErr e ∧ e.cls ≠ "out-of-fuel" :=
   resolve_complete_binding env mM [leaf, lst, con, m] ty standing_env mM_mem mM_sch ty_in_m.1 rfl ty_in_m.2 resolvable_ty fuel hfuel
+/-- The example set is well-formed in the decidable sense, the reference stands in it: `standing_of_wellformed` applies. -/
+example : WfReg env.reg := by decide +kernel
+example : InPlace env.reg (mM, [leaf, lst, con, m], ty) :=
+  ⟨mM_mem, List.Mem.head _, List.Mem.tail _ (List.Mem.head _), List.Mem.tail _ (List.Mem.tail _ (List.Mem.head _)),
+    List.Mem.tail _ (List.Mem.tail _ (List.Mem.head _)), rfl⟩
 /-- The executable specification accepts the reference (so `spec_exec_accepts` applies) … -/
 example : (match finish (chainOf env.reg 10 mM [leaf, lst, con, m] ty []) with
     | .ok st => st.kind == "int32" | _ => false) = true := by decide +kernel
